@@ -63,17 +63,30 @@ def real_expand(case, via):
     from codebasin import platform, preprocessor as pp
     p = platform.Platform("p", "/")
     try:
+        nodes = []
         for m in case["macros"].values():
             head, body = define_text(m)
             if via == "define":
                 node = pp.DirectiveParser(pp.Lexer(f"#define {head} {body}".rstrip()).tokenize()).parse()
                 node.evaluate_for_platform(platform=p, filename="x.c", state=None)
+                nodes.append(node)
             else:
                 macro = pp.macro_from_definition_string(f"{head}={body}")
                 p.define(macro.name, macro)
         toks = pp.Lexer(" ".join(case["inv"])).tokenize()
         out = pp.MacroExpander(p).expand(toks)
-        return [t.spelling()[0] for t in out], None, p
+        res = [t.spelling()[0] for t in out]
+        if nodes:
+            # the parsed #define nodes belong to the file's tree and are evaluated again for every later
+            # platform / translation unit: the second evaluation must define the same macros
+            p2 = platform.Platform("p2", "/")
+            for node in nodes:
+                node.evaluate_for_platform(platform=p2, filename="x.c", state=None)
+            out2 = pp.MacroExpander(p2).expand(pp.Lexer(" ".join(case["inv"])).tokenize())
+            res2 = [t.spelling()[0] for t in out2]
+            if res2 != res:
+                return res2, "SecondEvaluationDiffers", None
+        return res, None, p
     except BaseException as e:  # noqa
         if isinstance(e, (KeyboardInterrupt, SystemExit)):
             raise
@@ -108,7 +121,8 @@ def check_chunk(args):
             got, exc, plat = real_expand(case, via)
             desc = "; ".join(f"#define {h} {b}" for h, b in (define_text(m) for m in case["macros"].values()))
             if exc is not None:
-                fails.append(dict(layer="G", tags=sorted(tg | {"via." + via}), symptom=f"exception:{exc}",
+                fails.append(dict(layer="G", tags=sorted(tg | {"via." + via}),
+                                  symptom=("second-evaluation-of-define-differs" if exc == "SecondEvaluationDiffers" else f"exception:{exc}"),
                                   detail=f"{desc} ;; {' '.join(case['inv'])}  (expected {' '.join(case['out'])})",
                                   case=case))
                 break
